@@ -590,6 +590,9 @@ class MarkdownNormalizer(Renderer):
         children_content = self.render_children(element)
         self._in_heading = False
         self._current_inline_text = ""
+        # A setext heading may span several lines; an ATX heading cannot, so the line
+        # breaks inside its text become spaces (else the rest would turn into a paragraph).
+        children_content = re.sub(r"[ \t]*\\?\n[ \t]*", " ", children_content)
         # If heading ends with hard break, don't add extra newline. The same goes for a
         # heading directly inside an item of a tight list: a blank line after it would
         # turn the list into a loose one.
